@@ -41,6 +41,9 @@ impl ValueView for ValueCow {
     uninterp spec fn kstr_of(&self) -> KStringCow;
     uninterp spec fn array_of(&self) -> Option<Seq<VId>>;
     uninterp spec fn nil_of(&self) -> bool;
+    uninterp spec fn object_size_of(&self) -> Option<int>;
+    #[verifier::external_body]
+    fn as_object(&self) -> (r: Option<&dyn ObjectView>) { unimplemented!() }
     #[verifier::external_body]
     fn is_nil(&self) -> (r: bool) { unimplemented!() }
     #[verifier::external_body]
@@ -277,6 +280,9 @@ impl<'p> ValueView for ForloopObject<'p> {
     uninterp spec fn kstr_of(&self) -> KStringCow;
     uninterp spec fn array_of(&self) -> Option<Seq<VId>>;
     uninterp spec fn nil_of(&self) -> bool;
+    uninterp spec fn object_size_of(&self) -> Option<int>;
+    #[verifier::external_body]
+    fn as_object(&self) -> (r: Option<&dyn ObjectView>) { unimplemented!() }
     #[verifier::external_body]
     fn is_nil(&self) -> (r: bool) { unimplemented!() }
     #[verifier::external_body]
@@ -433,6 +439,9 @@ impl ValueView for TableRowObject {
     uninterp spec fn kstr_of(&self) -> KStringCow;
     uninterp spec fn array_of(&self) -> Option<Seq<VId>>;
     uninterp spec fn nil_of(&self) -> bool;
+    uninterp spec fn object_size_of(&self) -> Option<int>;
+    #[verifier::external_body]
+    fn as_object(&self) -> (r: Option<&dyn ObjectView>) { unimplemented!() }
     #[verifier::external_body]
     fn is_nil(&self) -> (r: bool) { unimplemented!() }
     #[verifier::external_body]
